@@ -184,7 +184,7 @@ def check_eager_binding(rep, rule):
     # --- BoundRoute.__init__
     bi = route.func('BoundRoute.__init__')
     cfg = cfg_of(bi)
-    cm = [stmt_of(route, c) for c in walk_body(bi.node) if isinstance(c, ast.Call) and call_name(c) == 'check_middlewares']
+    cm = [stmt_of(bi.mod, c) for c in walk_body(bi.node) if isinstance(c, ast.Call) and call_name(c) == 'check_middlewares']
     mk = [s for s in stmts_of(bi.node) if isinstance(s, ast.Assign) and isinstance(s.value, ast.Call) and call_name(s.value) == 'make_middleware_chain']
     ok = bool(cm) and cfg.must_pass(cfg.nodes_of_all(cm), cfg.entry, cfg.exit, normal_only=True)
     rep.check(rule, fkey(bi, 'check_middlewares'), ok, 'check_middlewares(...) is on every normal path of binding' if ok else
